@@ -24,7 +24,8 @@ use crate::{
     GDResult,
 };
 
-use bzip2_rs::decoder::Decoder;
+use bzip2_rs::decoder::DecoderReader;
+use std::io::Read;
 
 use crate::buffer::Utf8Decoder;
 use crate::protocols::valve::Packet;
@@ -89,17 +90,20 @@ impl SplitPacket {
 
     fn get_payload(&self) -> GDResult<Vec<u8>> {
         if let Some(decompressed) = self.decompressed {
-            let mut decoder = Decoder::new();
-            decoder
-                .write(&self.payload)
-                .map_err(|e| Decompress.context(e))?;
-
             let decompressed_size = decompressed.0 as usize;
 
-            let mut decompressed_payload = vec![0; decompressed_size];
+            // A response is made of at most 255 packets, anything near this limit is not a real one
+            if decompressed_size > MAXIMUM_DECOMPRESSED_SIZE {
+                return Err(Decompress.context(format!(
+                    "Declared decompressed size {decompressed_size} is over the limit of {MAXIMUM_DECOMPRESSED_SIZE}"
+                )));
+            }
 
-            decoder
-                .read(&mut decompressed_payload)
+            // Read one byte over the declared size at most, to notice (and not inflate) bigger payloads
+            let mut decompressed_payload = Vec::with_capacity(decompressed_size + 1);
+            DecoderReader::new(self.payload.as_slice())
+                .take(decompressed_size as u64 + 1)
+                .read_to_end(&mut decompressed_payload)
                 .map_err(|e| Decompress.context(e))?;
 
             if decompressed_payload.len() != decompressed_size
@@ -125,6 +129,9 @@ pub(crate) struct ValveProtocol {
 }
 
 static PACKET_SIZE: usize = 6144;
+
+/// Upper limit for the declared size of a decompressed response.
+const MAXIMUM_DECOMPRESSED_SIZE: usize = 4 * 1024 * 1024;
 
 impl ValveProtocol {
     pub fn new(address: &SocketAddr, timeout_settings: Option<TimeoutSettings>) -> GDResult<Self> {
